@@ -105,7 +105,14 @@ def gen(rng: Rng, tier: str, index: int) -> dict:
     ser = {'indent': o.pick(['\t', '  ', '', '    ', ' \t']), 'indent_braces': o.chance(0.5),
            'start_indent': o.pick(['', '', '\t', '  ']),
            'sink': o.pick(['str', 'str', 'file_lf', 'file_crlf'])}
-    return {'tree': tree, 'ser': ser, 'sched_seed': rng.child('sched').randrange(1 << 30), 'steps': None}
+    case = {'tree': tree, 'ser': ser, 'sched_seed': rng.child('sched').randrange(1 << 30), 'steps': None}
+    e = rng.child('edits')
+    if e.chance(0.35):
+        # second generation: the tree object that was just serialised is edited through the API and serialised again
+        case['edits'] = [[[e.randrange(6) for _ in range(e.randrange(0, 4))],
+                          e.pick(['edit_name', 'edit_name', 'set_name', 'set_real_name', 'edit_value', 'set_value', 'append', 'copy']),
+                          _rand_str(e, True), _rand_str(e, False)] for _ in range(e.randrange(1, 4))]
+    return case
 
 
 # ------------------------------------------------------------------ model helpers
@@ -314,8 +321,67 @@ def run(case: dict) -> Outcome:
                 pos += len(p)
                 if 0 < pos < len(text):
                     out.states.add(_cls(text[pos - 1]) + '>' + _cls(text[pos]))
+    if case.get('edits') and not out.viol:
+        _second_generation(out, case, kv, tree)
     out.sample = {'tree': tree, 'ser': ser, 'text': text[:600]}
     return out
+
+
+def _second_generation(out: Outcome, case, kv: Keyvalues, tree):
+    """Edit the already-serialised object through the API (mirroring every edit on the plain reference tree), serialise
+    again, parse, compare: what was written the first time must not stick to the nodes."""
+    import copy as _copy
+    ref = _copy.deepcopy(_norm(tree))
+    for path, kind, new_name, new_val in case['edits']:
+        node, rnode = kv, ref
+        for ix in path:
+            if not isinstance(rnode[1], list) or not rnode[1]:
+                break
+            k = ix % len(rnode[1])
+            node, rnode = node._value[k], rnode[1][k]
+        try:
+            if kind == 'copy':
+                kv = kv.copy()          # carry on with the copy of the whole tree; it must behave like the original
+                out.stats['second_gen_copy'] += 1
+                continue
+            if kind in ('edit_name', 'set_name', 'set_real_name'):
+                if rnode[0] is None:
+                    continue            # the root has no name to change
+                if kind == 'edit_name':
+                    node.edit(name=new_name)
+                elif kind == 'set_name':
+                    node.name = new_name
+                else:
+                    node.real_name = new_name
+                rnode[0] = new_name
+            elif kind in ('edit_value', 'set_value'):
+                if isinstance(rnode[1], list):
+                    continue
+                if kind == 'edit_value':
+                    node.edit(value=new_val)
+                else:
+                    node.value = new_val
+                rnode[1] = new_val
+            elif kind == 'append':
+                if not isinstance(rnode[1], list):
+                    continue
+                node.append(Keyvalues(new_name, new_val))
+                rnode[1].append([new_name, new_val])
+        except Exception as exc:
+            out.event('edit-raised', kind, type(exc).__name__)
+            return
+        out.stats['second_gen_edits'] += 1
+    try:
+        text2 = kv.serialise()
+        got = snapshot(Keyvalues.parse(text2, 'second', newline_keys=False, newline_values=True, allow_escapes=True))
+    except Exception as exc:
+        out.violate('parse-raised' if 'text2' in locals() else 'serialise-raised', f'second-generation|{type(exc).__name__}', f'after edits {case["edits"]}: {exc!r}')
+        return
+    want = ref if ref[0] is None else [None, [ref]]
+    diff = first_diff(want, got)
+    out.event('second-generation', 'ok' if diff is None else diff)
+    if diff is not None:
+        out.violate('tree-mismatch', f'second-generation|{diff[0]}|{diff[1]}', f'after serialise, API edits {case["edits"]} and a second serialise: {diff[3]}; text {text2!r}')
 
 
 def _norm(node):
